@@ -245,6 +245,31 @@ CHECKS = {
          "listed as open findings by exact leading-pattern sets.", "DESIGN.md 3/C08"),
 }
 
+# second session: what each check gained (appended to the level text; DESIGN.md 4.1 / 9 "Second session")
+ADDENDA = {
+ "C01": " Operand mutants include negative boundary values; known disagreements of the re-encoding kind are keyed by how the re-encoding differs (shorter/longer/same length). The shared decoder scan explores all 256 values of a third/fourth byte that selects the instruction (byte-oriented ISAs) and structured extension words for 16-bit ISAs.",
+ "C04": " Operand contexts: expressions steered to a target value are also written into .org/.resb/.set/.db/.dw lists/equ and instruction immediates with known encodings (8 CPUs), and into the numeric hole of corpus templates of every CPU, where the statement must assemble like the same statement with the plain literal.",
+ "C05": " Range checks are exercised through literals, expressions, .set, equ, backward/forward labels and forward label differences; the worker cross-checks Memory::read8 (the accessor of every writer) against the stored bytes.",
+ "C06": " Templates also come from the disassembler's accepted renderings (one per mnemonic and operand shape) for all 68 CPUs, including the 23 without a comparison file.",
+ "C07": " Quick stride is odd (7); byte-oriented ISAs: all 256 values of a third/fourth byte that selects the instruction; 16-bit ISAs: structured extension words; a hex literal printed with d digits is compared as a 4d-bit field (0x00ff is not -1).",
+ "C08": " Whole-image layouts are generated (1..5 segments, lone units, page crossings, far pages, ascending / descending / per-unit record order).",
+ "C09": " A bulk family defines 1,500..30,000 equ/.define/#define(p)/.macro names (several 32 KiB pools) and uses early, middle and late ones.",
+ "C10": " Besides the fixed list, ONE generated structural corruption (missing .endif/.if, second .else, extra .endif, stray directive at top level) is applied to a generated tree at a generated conditional and must be rejected.",
+ "C11": " CPUs: msp430, avr8 (word addressed) and arm64 (ELFCLASS64).",
+ "C12": " Every CPU with a corpus (47) is generated; include files are also pulled in from inside open conditionals.",
+ "C13": " Histories include stress programs (60..260 forward references inside unary/parenthesised expressions, macro calls and conditionals).",
+ "C14": " -run programs include reti idioms (inline and inside a called subroutine).",
+ "C15": " For 6502/65816/z80 the program counter after a non-branching step must be the address of the next disassembled instruction; four patterns per mnemonic the disassembler knows are always stepped; a nondeterministic step is traced to the earlier step that causes it.",
+ "C16": " Structured part (Hypothesis + sanitized CLI, every shard): one token repeated up to 70,000 times in 35 syntactic positions, bytes at the top of the address space x output types x -l, nesting combinations of conditionals/includes/macros, boundary operands in templates of all 68 CPUs; the process must end (40 s, confirmed 150 s) with status 0/1 and no sanitizer report.",
+ "C17": " Session part (Hypothesis + sanitized CLI, every shard): generated command lines (all options with/without their argument, files of every kind) and scripted sessions over all commands with edge addresses and ranges of known span; the process must end by itself with status 0/1, no sanitizer report and output bounded by the requested spans.",
+ "C19": " Argument-less disasm (whole image) must list every complete instruction word that is in memory.",
+ "C20": " Undefined symbols are NOTYPE or FUNC; archives also hold non-object members of odd and even size.",
+}
+TECH = {
+ "C16": "coverage-guided fuzzing (libFuzzer + ASan/UBSan) of in-process two-pass assembly, plus Hypothesis-generated structured stress inputs (amplification / extreme addresses / nesting / boundary operands) through the sanitized CLI",
+ "C17": "coverage-guided fuzzing (libFuzzer + ASan/UBSan) of the file loaders and the command loop, plus Hypothesis-generated command lines and scripted sessions through the sanitized CLI with an output-bound oracle",
+}
+
 NOT_YET = "check not built yet (work in progress; see DESIGN.md section 3)"
 
 m = {
@@ -268,6 +293,8 @@ for p in props:
     pid = p["id"]
     if pid in CHECKS and pid not in PENDING:
         eng, tech, text, note, ref = CHECKS[pid]
+        text = text + ADDENDA.get(pid, "")
+        tech = TECH.get(pid, tech)
         m["checks"].append({
             "property_id": pid,
             "quick_cmd": "./check %s --tier quick" % pid,
